@@ -24,6 +24,11 @@ CHECKS = {
   text="Model checking of the exact (integer/rational) reference semantics of the five coordinate models and of the metric with TLC, bound to the code by replaying every labelled conversion transition (point x ordered pair of models, as unit objects and as composite arrays of several shapes, plus chains of conversions) and every ordered pair of points of the universe (distance against exact cosh^2, zero/NaN, symmetry, closed forms on the library's own coordinates, triangle inequality on library values).",
   note="Bounded rational grid: primitive integer vectors, dimensions 1..4 (5 thorough), entries <= 13/9/5/3; conversions only where -<x,x> is a perfect square or 0; ideal points compared with sqrt-conditioning tolerance 2e-7; irrational points and points within 1e-6 of the boundary not covered.",
   design="4/C01"),
+ "C02": dict(
+  technique="TLA+ spec HypIso.tla: exact isometries <<M,d>> (integer matrix over a common denominator) generated by reflections, Pythagorean rotations, rational loxodromics, elliptic blocks; word machine with exact / coset / form-only states; TLC checks form preservation, inverse law, causal type and Minkowski products in every reachable state; the LTS is walked with real library isometries and every obligation of each target state is evaluated on the library's matrix",
+  text="Model checking of an exact word machine over O(n,1)(Q) with TLC (every reachable word up to length 3 preserves the form, causal types and products of test points), bound to the code by building every emitted word with the library's own constructors, `@` and `inv()` and requiring form preservation, equality with the exact matrix as a projective map (exact states), the specified image of the origin (origin_to cosets), unchanged distances and interior/ideal/exterior types of the spec's test points.",
+  note="Atoms at exact parameter values only (Pythagorean angles, rational translation parameters, integer normals, perfect-square targets); SL^+-(2,Z) images and Coxeter hyperbolic generators bound by form preservation only; words <= 3 (4 thorough for n=2); dimensions 2..4; model invariants evaluated where 32-bit products do not overflow.",
+  design="4/C02"),
 }
 
 NOT_YET = {
